@@ -30,7 +30,7 @@ CHECKS = [
          technique=T_CORR),
     dict(id='C02',
          text='Coq theorems (ScoringProof.v, Float64Proof.v): for ANY valid edit script the reported confidence is fl(1 - fl(D/|K|)) with D >= word Levenshtein distance between the document and the span trimmed by exactly the reported offsets, D = 0 only if identical; float64 monotonicity and conf = 1.0 <=> D = 0 via Flocq. Model stream validates every go-diff script; independent O(nm) Levenshtein oracle on Match results.',
-         note='diff library = oracle with validated contract (valid script, no empty entries); float lemmas rest on the stdlib real-number axioms (listed in evidence); dictionary words non-empty and space-free (proved for the tokenizer in TokInv.v).',
+         note='diff library = oracle with validated contract (the recorded script is a valid edit script between span and document - empty entries allowed since ScoringNoD3.v); float lemmas rest on the stdlib real-number axioms (listed in evidence); dictionary words non-empty and space-free (proved for the tokenizer in TokInv.v).',
          technique=T_CORR),
     dict(id='C03',
          text='Coq theorems (MatchWF.v, TokInv.v, SortProof.v, Float64Proof.v): every reported match is well formed (threshold <= conf, names from a corpus key, token indices in range, lines = lines of first/last token, lines ordered and <= TotalInputLines <= 1 + newlines), results are a subsequence of the Less-sorted candidates, conf <= 1. Direct field-by-field oracle on Match results.',
@@ -50,7 +50,7 @@ CHECKS = [
          technique=T_CORR),
     dict(id='C07',
          text='Model stream (whole-pipeline model vs Match on planted/edited inputs) and metamorphic oracle Match(X) vs Match(P+X+S); the exact-copy case is covered by the C01 theorems (range bounds independent of A, B). No general shift theorem is claimed: partial.',
-         note='partial: the fuzzy path (density window start, negative-offset clamp, short-target trim) is position dependent by construction; only searched, not proved.',
+         note='partial: proved for arbitrary X up to the hit bitmap (hash join and bitmap are those of X alone, shifted: V2/Shift.v) and for exact copies up to the proposed range; the stages after the bitmap (density window start, negative-offset clamp, short-target trim) are position dependent at the edges of X by construction: searched (metamorphic oracle, boundary-density inputs) and tied at stage level (getMatchedRanges vs model), not proved.',
          technique=T_CORR),
     dict(id='C10',
          text='Coq theorems: match_tokens never reaches an out-of-range site for any threshold/corpus/input given a valid diff oracle (MatchWF.v + ScoringProof.v offsets), searchset ranges in bounds, read loop total on every byte string (ReaderProof.v), all recursion structural or on fuel proved sufficient. Oracle: hostile bytes x corpora x thresholds with recover and time budget.',
@@ -58,7 +58,7 @@ CHECKS = [
          technique=T_CORR),
     dict(id='C11',
          text='Normalize model (Normalize.v) tied to the code byte-for-byte; oracle: tokens(Normalize(x)) = tokens(x) and Match(Normalize(x)) = Match(x) minus Copyright on license-bearing inputs. No general theorem yet (four known findings show the unrestricted statement is false): partial.',
-         note='partial: theorem for the restricted statement not yet proved; known findings classified by narrow symptom predicates.',
+         note='partial: C11_restricted / C11_for_checked_tables proved (V2/NormProof.v, NormTables.v): the property holds for every input whose raw run passes two boolean side conditions, each the negation of a recorded exception class; the side conditions and the table hypothesis are evaluated on every oracle input / on the dumped tables in every run. The unrestricted statement is refuted by the known findings.',
          technique=T_CORR),
     dict(id='C08',
          text='Coq theorems (ReaderProof.v): for every byte string, table and mode the chunked read loop (1024-byte buffer, 1020 target, <= 4 carried bytes) yields exactly the whole-string tokenisation, hence independence of fragmentation and padding; a reader fault at any offset <= len yields the error; UTF-8 decode/encode round trip; the original loop is refuted by a 1025-byte witness. Reader model stream + MatchFrom-vs-Match oracle under adversarial readers.',
